@@ -230,87 +230,130 @@ theorem ref_step {s : FS} {K K' : Known} {c : Call}
       unfold rawRef
       rw [step_frame c s _ ht, step_frame c s _ hp]
 
-/-! ### closures -/
+/-! ### closures and the shallow set -/
 
-theorem closed_aux {edges : List (Nat × List Nat)} {G : Nat → List Nat} {c : List Nat}
-    (hg : ∀ o ds, edges.lookup o = some ds → G o = ds)
-    (hall : ∀ x ∈ c, (match edges.lookup x with
-        | some ds => ds.all c.contains
-        | none => false) = true)
-    {a o : Nat} (hr : ReachFrom G a o) : a ∈ c → o ∈ c := by
+theorem closed_aux {edges : List (Nat × List Nat × List Nat)} {G GP : Nat → List Nat} {S c : List Nat}
+    (hg : ∀ o ds ps, edges.lookup o = some (ds, ps) → G o = ds ∧ GP o = ps)
+    (hall : ∀ x ∈ c, nodeOK edges S c x = true)
+    {a o : Nat} (hr : ReachFrom G GP S a o) : a ∈ c → o ∈ c := by
   induction hr with
   | refl a => exact id
-  | @step a b c' hb _ ih =>
+  | @dep a b c' hb _ ih =>
     intro ha
     apply ih
     have := hall a ha
+    unfold nodeOK at this
     split at this
-    · rename_i ds hds
-      rw [hg a ds hds] at hb
-      simp only [List.all_eq_true] at this
-      simpa using this b hb
+    · rename_i ds ps hds
+      rw [(hg a ds ps hds).1] at hb
+      simp only [Bool.and_eq_true, List.all_eq_true] at this
+      simpa using this.1 b hb
+    · cases this
+  | @par a b c' hs hb _ ih =>
+    intro ha
+    apply ih
+    have := hall a ha
+    unfold nodeOK at this
+    split at this
+    · rename_i ds ps hds
+      rw [(hg a ds ps hds).2] at hb
+      simp only [Bool.and_eq_true, Bool.or_eq_true, List.all_eq_true] at this
+      rcases this.2 with h1 | h1
+      · exact absurd (by simpa using h1) hs
+      · simpa using h1 b hb
     · cases this
 
-theorem closed_sound {spec : Spec} {G : Nat → List Nat} {v : Nat}
-    (hg : ∀ o ds, spec.edges.lookup o = some ds → G o = ds)
-    (hc : closedOK spec v = true) {o : Nat} (hr : ReachFrom G v o) : o ∈ cl spec v := by
+theorem closed_sound {spec : Spec} {G GP : Nat → List Nat} {S : List Nat} {v : Nat}
+    (hg : ∀ o ds ps, spec.edges.lookup o = some (ds, ps) → G o = ds ∧ GP o = ps)
+    (hc : closedOK spec S v = true) {o : Nat} (hr : ReachFrom G GP S v o) : o ∈ cl spec S v := by
   unfold closedOK at hc
   simp only [Bool.and_eq_true, List.all_eq_true] at hc
   obtain ⟨hv, hall⟩ := hc
   exact closed_aux hg hall hr (by simpa using hv)
 
+theorem shalK_sound {s : FS} {K : Known} (h : Agrees s K) {S : List Nat} (hs : shalK K = some S) :
+    shal s = S := by
+  unfold shalK at hs
+  cases hl : lk K .shallow with
+  | none => simp [hl] at hs
+  | some c =>
+    simp only [hl, Option.map_some, Option.some.injEq] at hs
+    unfold shal
+    rw [h _ _ hl, hs]
+
+theorem shal_frame (c : Call) (s : FS) (h : Path.shallow ∉ touched c) : shal (step c s) = shal s := by
+  unfold shal
+  rw [step_frame c s _ h]
+
+/-- A path that exists under the shallow set `S'` either exists under `S` as well, or leaves — by a
+parent edge — a commit that `S` lists and `S'` does not. -/
+theorem reach_split {G GP : Nat → List Nat} {S S' : List Nat} {v o : Nat}
+    (h : ReachFrom G GP S' v o) :
+    ReachFrom G GP S v o ∨
+      ∃ a, a ∈ S ∧ a ∉ S' ∧ ReachFrom G GP S v a ∧ ReachFrom G GP S' a o := by
+  induction h with
+  | refl a => exact Or.inl (.refl a)
+  | @dep a b c hb hr ih =>
+    rcases ih with h1 | ⟨x, hx, hx', h1, h2⟩
+    · exact Or.inl (.dep hb h1)
+    · exact Or.inr ⟨x, hx, hx', .dep hb h1, h2⟩
+  | @par a b c hs hb hr ih =>
+    by_cases ha : a ∈ S
+    · exact Or.inr ⟨a, ha, hs, .refl a, .par hs hb hr⟩
+    · rcases ih with h1 | ⟨x, hx, hx', h1, h2⟩
+      · exact Or.inl (.par ha hb h1)
+      · exact Or.inr ⟨x, hx, hx', .par ha hb h1, h2⟩
+
 /-! ### the invariant -/
 
-/-- A ref value that is not the ref's old value has its whole closure visible and protected. -/
-def NewClosed (spec : Spec) (s : FS) (v : Nat) : Prop :=
-  closedOK spec v = true ∧ ∀ o ∈ cl spec v, Vis s o ∧ o ∉ spec.garbage
-
-structure Inv (spec : Spec) (G : Nat → List Nat) (s0 s : FS) : Prop where
+structure Inv (spec : Spec) (G GP : Nat → List Nat) (s0 s : FS) : Prop where
   refs : ∀ r, RefOldOrNew spec s0 s r
-  kept : ∀ o, Reach G s0 o → Vis s o
-  fresh : ∀ r v, rawRef s r = some (.sha v) → rawRef s0 r = some (.sha v) ∨ NewClosed spec s v
+  kept : ∀ o, Reach G GP s0 o → Vis s o
+  cons : ∀ o, Reach G GP s o → Vis s o ∧ o ∉ spec.garbage
   plain : ∀ n, PlainOldOrNew spec s0 s n
   typed : ∀ p c, s p = some c → typedB p c = true
   paired : ∀ p, PairedAt s p
 
-theorem closedVis_sound {spec : Spec} {s : FS} {K : Known} (h : Agrees s K) {v : Nat}
-    (hc : closedVis spec K v = true) : NewClosed spec s v := by
+theorem closedVis_sound {spec : Spec} {G GP : Nat → List Nat} {s : FS} {K : Known}
+    (hg : ∀ o ds ps, spec.edges.lookup o = some (ds, ps) → G o = ds ∧ GP o = ps)
+    (h : Agrees s K) {v : Nat} (hc : closedVis spec K v = true) {o : Nat}
+    (hr : ReachFrom G GP (shal s) v o) : Vis s o ∧ o ∉ spec.garbage := by
   unfold closedVis at hc
-  simp only [Bool.and_eq_true, List.all_eq_true] at hc
-  refine ⟨hc.1, fun o ho => ?_⟩
-  have := hc.2 o ho
-  exact ⟨visK_sound h this.1, by simpa using this.2⟩
+  split at hc
+  · rename_i S hS
+    rw [shalK_sound h hS] at hr
+    simp only [Bool.and_eq_true, List.all_eq_true] at hc
+    have := hc.2 o (closed_sound hg hc.1 hr)
+    exact ⟨visK_sound h this.1, by simpa using this.2⟩
+  · cases hc
 
-theorem inv_init {spec : Spec} {G : Nat → List Nat} {s : FS} (hp : Pre spec G s) : Inv spec G s s where
+theorem inv_init {spec : Spec} {G GP : Nat → List Nat} {s : FS} (hp : Pre spec G GP s) :
+    Inv spec G GP s s where
   refs := fun _ => Or.inl rfl
   kept := hp.consistent
-  fresh := fun _ _ h => Or.inl h
+  cons := fun o h => ⟨hp.consistent o h, fun hg => hp.garbage o hg h⟩
   plain := fun _ => Or.inl rfl
   typed := hp.typed
   paired := hp.paired
 
-theorem inv_recoverable {spec : Spec} {G : Nat → List Nat} {s0 s : FS} (hp : Pre spec G s0)
-    (h : Inv spec G s0 s) : Recoverable spec G s0 s where
+theorem inv_recoverable {spec : Spec} {G GP : Nat → List Nat} {s0 s : FS}
+    (h : Inv spec G GP s0 s) : Recoverable spec G GP s0 s where
   refs := h.refs
   kept := h.kept
   plain := h.plain
   typed := h.typed
   paired := h.paired
-  consistent := by
-    intro o ⟨r, v, hr, hreach⟩
-    rcases h.fresh r v hr with h0 | ⟨hc, hall⟩
-    · exact h.kept o ⟨r, v, h0, hreach⟩
-    · exact (hall o (closed_sound hp.graph hc hreach)).1
+  consistent := fun o ho => (h.cons o ho).1
 
-theorem inv_step {spec : Spec} {G : Nat → List Nat} {s0 s : FS} {K K' : Known} {c : Call}
-    (hp : Pre spec G s0) (hK : Agrees s K) (hk : stepK c K = some K')
-    (hsafe : safeStep spec spec.known K K' c = true) (h : Inv spec G s0 s) :
-    Inv spec G s0 (step c s) := by
+theorem inv_step {spec : Spec} {G GP : Nat → List Nat} {s0 s : FS} {K K' : Known} {c : Call}
+    (hp : Pre spec G GP s0) (hK : Agrees s K) (hk : stepK c K = some K')
+    (hsafe : safeStep spec spec.known K K' c = true) (h : Inv spec G GP s0 s) :
+    Inv spec G GP s0 (step c s) := by
   have hK' : Agrees (step c s) K' := stepK_agrees hK hk
   unfold safeStep at hsafe
   simp only [List.all_eq_true, Bool.and_eq_true] at hsafe
-  have hobj : ∀ t ∈ touched c, objsOK spec K K' t = true := fun t ht => (hsafe t ht).1.1.1.2
-  have hrefs : ∀ t ∈ touched c, refsOK spec spec.known K K' t = true := fun t ht => (hsafe t ht).1.1.2
+  have hobj : ∀ t ∈ touched c, objsOK spec K K' t = true := fun t ht => (hsafe t ht).1.1.1.1.2
+  have hrefs : ∀ t ∈ touched c, refsOK spec spec.known K K' t = true := fun t ht => (hsafe t ht).1.1.1.2
   have hknown : ∀ t ∈ touched c, ∃ l, mayChange K K' t = some l := by
     intro t ht
     have := hrefs t ht
@@ -362,13 +405,34 @@ theorem inv_step {spec : Spec} {G : Nat → List Nat} {s0 s : FS} {K K' : Known}
     apply keepVis o (h.kept o ho)
     intro hg
     exact hp.garbage o hg ho
-  · -- fresh
-    intro r v hr
+  · -- cons: every ref's closure, cut at the CURRENT shallow set, is visible
+    intro o ⟨r, v, hr, hreach⟩
     by_cases hne : rawRef (step c s) r = rawRef s r
-    · rcases h.fresh r v (hne ▸ hr) with h1 | ⟨hc, hall⟩
-      · exact Or.inl h1
-      · exact Or.inr ⟨hc, fun o ho => ⟨keepVis o (hall o ho).1 (hall o ho).2, (hall o ho).2⟩⟩
-    · have ok := changed r hne
+    · -- the ref did not move
+      have hr0 : rawRef s r = some (.sha v) := hne ▸ hr
+      have viaOld : ∀ o', ReachFrom G GP (shal s) v o' → Vis (step c s) o' ∧ o' ∉ spec.garbage := by
+        intro o' ho'
+        have := h.cons o' ⟨r, v, hr0, ho'⟩
+        exact ⟨keepVis o' this.1 this.2, this.2⟩
+      by_cases hsh : Path.shallow ∈ touched c
+      · -- the shallow set moved: split the path at the first commit that stopped being a graft point
+        have := (hsafe _ hsh).2
+        simp only [shallowOK] at this
+        split at this
+        · rename_i Sa Sb hSa hSb
+          have ea := shalK_sound hK hSa
+          have eb := shalK_sound hK' hSb
+          rw [eb] at hreach
+          rcases reach_split (S := Sa) hreach with h1 | ⟨a, ha, ha', _, h2⟩
+          · exact viaOld o (ea ▸ h1)
+          · simp only [List.all_eq_true, List.mem_filter] at this
+            have hc := this a ⟨ha, by simpa using ha'⟩
+            exact closedVis_sound hp.graph hK' hc (eb ▸ h2)
+        · cases this
+      · rw [shal_frame c s hsh] at hreach
+        exact viaOld o hreach
+    · -- the ref moved: its new value was checked against the state after the step
+      have ok := changed r hne
       unfold refOK at ok
       split at ok
       · rename_i v' hv'
@@ -376,12 +440,12 @@ theorem inv_step {spec : Spec} {G : Nat → List Nat} {s0 s : FS} {K K' : Known}
         rw [hr] at e'
         subst e'
         simp only [Bool.and_eq_true] at ok
-        exact Or.inr (closedVis_sound hK' ok.2)
+        exact closedVis_sound hp.graph hK' ok.2 hreach
       · cases ok
   · -- plain
     intro n
     by_cases ht : Path.plain n ∈ touched c
-    · have := (hsafe _ ht).1.2
+    · have := (hsafe _ ht).1.1.2
       simp only [plainOK] at this
       split at this
       · rename_i d hd
@@ -401,7 +465,7 @@ theorem inv_step {spec : Spec} {G : Nat → List Nat} {s0 s : FS} {K K' : Known}
   · -- typed
     intro p d hpd
     by_cases ht : p ∈ touched c
-    · have := (hsafe _ ht).1.1.1.1
+    · have := (hsafe _ ht).1.1.1.1.1
       unfold typedOK at this
       split at this
       · rename_i d' hd'
@@ -421,7 +485,7 @@ theorem inv_step {spec : Spec} {G : Nat → List Nat} {s0 s : FS} {K K' : Known}
     intro p k k' objs h1 h2
     have fromK : ∀ t ∈ touched c, (t = .pack p ∨ t = .idx p) → k = k' := by
       intro t ht htp
-      have := (hsafe t ht).2
+      have := (hsafe t ht).1.2
       have e : pairOK K' t = (match lk K' (.pack p), lk K' (.idx p) with
           | some (some (.packData k)), some (some (.idxData k' _)) => k == k'
           | some _, some _ => true
@@ -451,9 +515,9 @@ theorem inv_step {spec : Spec} {G : Nat → List Nat} {s0 s : FS} {K K' : Known}
         rw [step_frame c s _ ht2] at h2
         exact h.paired p k k' objs h1 h2
 
-theorem go_sound {spec : Spec} {G : Nat → List Nat} {s0 : FS} (hp : Pre spec G s0) :
-    ∀ (p : List Call) (K : Known) (s : FS), Agrees s K → Inv spec G s0 s →
-      go spec spec.known K p = true → ∀ k, Inv spec G s0 (run (p.take k) s) := by
+theorem go_sound {spec : Spec} {G GP : Nat → List Nat} {s0 : FS} (hp : Pre spec G GP s0) :
+    ∀ (p : List Call) (K : Known) (s : FS), Agrees s K → Inv spec G GP s0 s →
+      go spec spec.known K p = true → ∀ k, Inv spec G GP s0 (run (p.take k) s) := by
   intro p
   induction p with
   | nil => intro K s _ hi _ k; simpa [run] using hi
@@ -535,26 +599,26 @@ theorem rawRefC_mem {K : Known} {r : Nat} {v : RefV} (h : rawRefC K r = some v) 
     · cases h
 
 theorem pre_of_preK {spec : Spec} (h : preK spec = true) :
-    Pre spec (graphOf spec) (toFS spec.known) := by
+    Pre spec (graphOf spec) (parentsOf spec) (toFS spec.known) := by
   unfold preK at h
   simp only [Bool.and_eq_true, List.all_eq_true] at h
-  obtain ⟨⟨hrefs, htyped⟩, hpair⟩ := h
-  have hg : ∀ o ds, spec.edges.lookup o = some ds → graphOf spec o = ds := by
-    intro o ds ho; simp [graphOf, ho]
+  obtain ⟨⟨⟨_, hrefs⟩, htyped⟩, hpair⟩ := h
+  have hg : ∀ o ds ps, spec.edges.lookup o = some (ds, ps) →
+      graphOf spec o = ds ∧ parentsOf spec o = ps := by
+    intro o ds ps ho; simp [graphOf, parentsOf, ho]
   have closed : ∀ r v, rawRef (toFS spec.known) r = some (.sha v) →
-      NewClosed spec (toFS spec.known) v := by
-    intro r v hr
+      ∀ o, ReachFrom (graphOf spec) (parentsOf spec) (shal (toFS spec.known)) v o →
+        Vis (toFS spec.known) o ∧ o ∉ spec.garbage := by
+    intro r v hr o ho
     rw [rawRef_toFS] at hr
     have := hrefs r (rawRefC_mem hr)
     rw [hr] at this
-    exact closedVis_sound (agrees_toFS _) this
+    exact closedVis_sound hg (agrees_toFS _) this ho
   refine ⟨agrees_toFS _, hg, ?_, ?_, ?_, ?_⟩
   · intro o ⟨r, v, hr, hreach⟩
-    obtain ⟨hc, hall⟩ := closed r v hr
-    exact (hall o (closed_sound hg hc hreach)).1
+    exact (closed r v hr o hreach).1
   · intro o ho ⟨r, v, hr, hreach⟩
-    obtain ⟨hc, hall⟩ := closed r v hr
-    exact (hall o (closed_sound hg hc hreach)).2 ho
+    exact (closed r v hr o hreach).2 ho
   · intro p c hpc
     have hl : lk spec.known p = some (some c) := by
       unfold toFS at hpc
